@@ -47,6 +47,10 @@ def register(m):
       "    return vector_magnitude(parametrized_curve_element(trajectory, parameter))",
       "    magnitude = vector_magnitude(parametrized_curve_element(trajectory, parameter))\n    (positive, reps) = posify(magnitude)\n    return positive.subs(reps)", "J7",
       extra=[(GE, "from sympy import Expr, diff, sin, S", "from sympy import Expr, diff, posify, sin, S", 1)])
+    AN = "symplyphysics/core/fields/analysis.py"
+    m("C13", "b2-green-divergence-not-evaluated-regression", AN, "    flux_value = integrate(field_divergence_applied * surface_element_magnitude,", "    flux_value = integrate(field_divergence * surface_element_magnitude,", "J5",
+      note="the genuine defect repaired in 94f7f9a")
+    m("C13", "b2-circulation-field-at-origin", AN, "    field_applied = field.apply(trajectory)\n    curve_element_vector", "    field_applied = field.apply([0 for _ in trajectory])\n    curve_element_vector", "J1")
     # C14 R2 key / R4 hooks
     m("C14", "b2-key-by-display", VE, "    key = key or id", "    key = key or str", "R2")
     m("C14", "b2-hook-rhs-swapped", VE, "            result = rhs._eval_vector_cross(lhs, rhs)", "            result = rhs._eval_vector_cross(rhs, lhs)", "R4")
